@@ -43,12 +43,17 @@ Section WithDefaults.
 
   Definition stub_shallow_clone (C : hier) : stub_method :=
     {| m_fixed := [s2p "self"]; m_kwparams := with_none (ordered_args (type_info C)); m_kw := stub_kw C |}.
+  (* the two classmethods leave out a field keyword named like one of their own parameters (at run time such a
+     keyword is bound to that parameter, it never reaches **kw) *)
+  Definition classmethod_own : list pystr := [s2p "cls"; s2p "source_object"; s2p "ignore_props"].
+  Definition classmethod_kws (l : list sparam) : list sparam :=
+    filter (fun p => negb (str_in (fst p) classmethod_own)) l.
   Definition stub_from_other_class (C : hier) : stub_method :=
     {| m_fixed := [s2p "cls"; s2p "source_object"; s2p "*"; s2p "ignore_props"];
-       m_kwparams := with_none (ordered_args (type_info C)); m_kw := stub_kw C |}.
+       m_kwparams := classmethod_kws (with_none (ordered_args (type_info C))); m_kw := stub_kw C |}.
   Definition stub_from_trusted_data (C : hier) : stub_method :=
     {| m_fixed := [s2p "cls"; s2p "source_object"; s2p "*"; s2p "ignore_props"];
-       m_kwparams := with_none (ordered_args (type_info C)); m_kw := stub_kw C |}.
+       m_kwparams := classmethod_kws (with_none (ordered_args (type_info C))); m_kw := stub_kw C |}.
 
   Definition stub_init_names (C : hier) : list pystr := map fst (m_kwparams (stub_init C)).
   Definition stub_has_default (C : hier) (n : pystr) : bool :=
@@ -65,6 +70,11 @@ Section WithDefaults.
   Definition reserved : list pystr := [s2p "self"; s2p "cls"; s2p "source_object"; s2p "ignore_props"].
   Definition no_reserved (C : hier) : bool :=
     forallb (fun n => negb (str_in n reserved)) (all_names C).
+  (* the only name that still collides: a field named self (__init__ and shallow_clone_with_overrides) *)
+  Definition no_self (C : hier) : bool := negb (str_in (s2p "self") (all_names C)).
+  (* no field is named like a parameter of the classmethods: they carry every keyword of __init__ *)
+  Definition no_classmethod_own (C : hier) : bool :=
+    forallb (fun n => negb (str_in n classmethod_own)) (all_names C).
 
   (* --- the predicates under which the pinned generator agrees with the run time *)
   (* the default marker is decided by _required alone; only a required field whose type TEXT itself ends with
